@@ -17,6 +17,8 @@ if SRC not in sys.path:
     sys.path.insert(0, SRC)
 
 import curies  # noqa: E402
+import logging as _logging  # noqa: E402
+_logging.getLogger("curies").setLevel(_logging.ERROR)      # the library's warnings are not observations
 from curies import Converter, Record, ReferenceTuple  # noqa: E402
 from curies import api as _api  # noqa: E402
 
@@ -429,6 +431,54 @@ class World:
         (what discover returns is C19's business)."""
         op = {"k": "discover", "i": i, "uris": [self.I(u) for u in uris]}
         return self._derive(op, lambda: curies.discover(list(uris), converter=self.convs[i - 1]), [i], extra)
+
+    # --- files (spec/System.tla): writing is an event of its own, reading any file written so far another
+    def write(self, i, fmt, syn, expand):
+        import tempfile
+        c = self.convs[i - 1]
+        if not hasattr(self, "files"):
+            self.files = []
+            self._fdir = tempfile.mkdtemp(prefix="sysfiles-", dir=os.environ.get("VERIF_TMP", "/verif/out"))
+        path = os.path.join(self._fdir, f"f{len(self.files) + 1}." + {"epm": "json", "jsonld": "json", "shacl": "ttl", "tsv": "tsv"}[fmt])
+        op = {"k": "write", "i": i, "fmt": fmt, "syn": bool(syn), "expand": bool(expand)}
+        try:
+            if fmt == "epm":
+                curies.write_extended_prefix_map(c, path)
+            elif fmt == "jsonld":
+                curies.write_jsonld_context(c, path, include_synonyms=syn, expand=expand)
+            elif fmt == "shacl":
+                curies.write_shacl(c, path, include_synonyms=syn)
+            else:
+                curies.write_tsv(c, path)
+            out = ["ok"]
+        except BaseException as e:  # noqa: BLE001
+            out = enc_exc(e)
+        # the event number of the write identifies the file in later read events
+        self.files.append({"path": path, "fmt": fmt, "syn": bool(syn), "delim": c.delimiter, "event": len(self.events) + 1, "ok": out[0] == "ok"})
+        self._event(op, out, [i] if self.probe_inputs else [])
+        return out[0]
+
+    def read(self, j, extra=()):
+        import csv
+        f = self.files[j - 1]
+        op = {"k": "read", "j": j, "w": f["event"]}
+
+        def go():
+            if f["fmt"] == "epm":
+                return curies.load_extended_prefix_map(f["path"], delimiter=f["delim"])
+            if f["fmt"] == "jsonld":
+                return curies.load_jsonld_context(f["path"], strict=not f["syn"])
+            if f["fmt"] == "shacl":
+                return curies.load_shacl(f["path"], strict=not f["syn"])
+            with open(f["path"], newline="") as fh:
+                rows = list(csv.reader(fh, delimiter="\t"))
+            return curies.load_prefix_map({r[0]: r[1] for r in rows[1:]})
+        return self._derive(op, go, [], extra)
+
+    def cleanup(self):
+        import shutil
+        if getattr(self, "_fdir", None):
+            shutil.rmtree(self._fdir, ignore_errors=True)
 
     def load(self, loader, data, delim=":", strict=True, extra=(), via="obj"):
         I = self.I
